@@ -65,6 +65,8 @@ class Safety(CContract):
         if self.convention == "setter":
             info["concretise"] = lambda m: dict(harness="cvalidators", family="getset_delete", setter=self.qualname,
                                                 deleting=z3.is_true(m.eval(consts["value"] == NULL, model_completion=True)))
+        elif getattr(self, "replay_case", None):
+            info["concretise"] = lambda m: dict(self.replay_case)
         return st, args, info
 
     def c_post(self, cx, ex, ov, info, ret, st):
@@ -89,9 +91,9 @@ class Safety(CContract):
         return []
 
 
-def safety(qualname, convention, returns="object", invariant=None, doc=None, props=("C18",), extra=None, assumptions=()):
+def safety(qualname, convention, returns="object", invariant=None, doc=None, props=("C18",), extra=None, assumptions=(), replay=None):
     ns = dict(qualname=qualname, convention=convention, returns=returns, properties=tuple(props), __doc__=doc,
-              assumptions=Safety.assumptions + tuple(assumptions))
+              assumptions=Safety.assumptions + tuple(assumptions), replay_case=replay)
     if invariant is not None:
         ns["invariants"] = lambda self, ex, st, a: invariant(ex, st, a)
     if extra is not None:
@@ -228,3 +230,51 @@ safety("_trait_get_property", "noargs",
        doc="property_fields: the (getter, setter, validator) triple of a property trait, None otherwise")
 for fn in ("_has_traits_change_notify", "_has_traits_veto_notify", "_has_traits_notifiers", "_trait_notifiers", "_trait_set_default_value"):
     safety(fn, "method", doc="method taking an argument tuple: a new reference or NULL with an error")
+
+
+# ---------------------------------------------------------------------------------------------------------------------
+# CTrait.clone(source): the definition fields of `source` replace those of the trait; what the trait held before is released
+# ---------------------------------------------------------------------------------------------------------------------
+CLONED_OBJ = ("py_post_setattr", "py_validate", "default_value", "delegate_name", "delegate_prefix", "handler")
+CLONED_ALL = ("flags", "getattr", "setattr", "post_setattr", "validate", "default_value_type", "delegate_attr_name") + CLONED_OBJ
+
+
+def clone_extra(cx, ex, info, ret, st):
+    a = info["args"]
+    trait = a["self"]
+    st0 = info["st0"]
+    src = st.ghost.get("clone_source")
+    out = []
+    if src is not None:
+        out.append(("post:every-definition-field-is-the-source's", z3.Implies(ret != NULL, z3.And(
+            *[ex.field_array(st, n)[trait] == ex.field_array(st0, n)[src] for n in CLONED_ALL]))))
+    else:
+        out.append(("post:without-a-source-nothing-is-written", z3.BoolVal(not any(r[0] == "store" for r in st.trace))))
+    return out
+
+
+def clone_setup_hook(cls):
+    orig = cls.configure
+
+    def configure(self, cx, ex, ov):
+        orig(self, cx, ex, ov)
+        cx.globals["ctrait_type"] = z3.Const("g_ctrait_type", Obj)
+
+        def parse(ex2, args, st, k):
+            """PyArg_ParseTuple(args, "O!", ctrait_type, &source): a borrowed, non-NULL cTrait, or failure with TypeError"""
+            fmt = args[1].s if hasattr(args[1], "s") else None
+            if fmt != "O!":
+                return A._parse_tuple(ex2.api, args, st, k)
+            target = args[3]
+            v = cx.fresh("parsed", Obj)
+            ok = st.assume(v != NULL, A.subtype(A.type_of(v), args[2])).set(target.a, v).gset("clone_source", v)
+            ok = ok.gset("caller_kept", tuple(ok.ghost.get("caller_kept", ())) + (v,))
+            return k(z3.IntVal(1), ok) + k(z3.IntVal(0), st.with_exc(EXC["TypeError"]))
+        cx.summaries["PyArg_ParseTuple"] = parse
+    cls.configure = configure
+    return cls
+
+
+clone_setup_hook(safety("_trait_clone", "method", extra=clone_extra, props=("C18", "C14"), replay=dict(harness="hastraits", family="clone"),
+                        doc="CTrait.clone(source): 'cloning ... trait definitions' leaves no reference behind: the six object-valued "
+                            "definition fields the trait held before are released, the source's are shared with a reference each."))
